@@ -35,6 +35,13 @@ def mk_objects(rng, navis):
     me = navis.MeshNeuron((verts, faces), name='me', id=12)
     dp = navis.make_dotprops(rng.integers(-8, 9, size=(12, 3)).astype(float), k=3)
     dp.name, dp.id = 'dp', 13
+    # meshes and dotprops carry connectors too (one of them off the vertex / point set)
+    import pandas as pd
+    kcn = int(rng.integers(1, 5))
+    cm = rng.integers(-8, 9, size=(kcn, 3)).astype(float)
+    me.connectors = pd.DataFrame(dict(connector_id=np.arange(kcn) + 50, vertex_id=rng.integers(0, len(verts), size=kcn), x=cm[:, 0], y=cm[:, 1], z=cm[:, 2], type=np.zeros(kcn, dtype=np.int64)))
+    cd = rng.integers(-8, 9, size=(kcn, 3)).astype(float)
+    dp.connectors = pd.DataFrame(dict(connector_id=np.arange(kcn) + 70, point_id=rng.integers(0, 12, size=kcn), x=cd[:, 0], y=cd[:, 1], z=cd[:, 2], type=np.zeros(kcn, dtype=np.int64)))
     vx = navis.VoxelNeuron(rng.integers(0, 5, size=(4, 5, 6)).astype(np.uint8), name='vx', id=14)
     return dict(skeleton=sk, mesh=me, dotprops=dp, voxels=vx)
 
@@ -83,7 +90,7 @@ def run(ctx):
             arg = fac[0] if opname in ('mul', 'div') else off[0]
         c0 = coords(x, kind)
         u0 = unit_nm(x)
-        cn0 = x.connectors[['x', 'y', 'z']].values.astype(float).copy() if kind == 'skeleton' and x.has_connectors else None
+        cn0 = x.connectors[['x', 'y', 'z']].values.astype(float).copy() if kind in ('skeleton', 'mesh', 'dotprops') and x.has_connectors else None
         r0 = x.nodes.radius.values.astype(float).copy() if kind == 'skeleton' else None
         phys0 = None
         op = dict(mul=lambda a, b: a * b, div=lambda a, b: a / b, add=lambda a, b: a + b, sub=lambda a, b: a - b)[opname]
@@ -97,7 +104,7 @@ def run(ctx):
             continue
         c1 = coords(y, kind)
         u1 = unit_nm(y)
-        if not np.array_equal(coords(x, kind), c0):
+        if not np.array_equal(coords(x, kind), c0) or (cn0 is not None and not np.array_equal(x.connectors[['x', 'y', 'z']].values.astype(float), cn0)):
             ctx.violation('arithmetic modified its input', desc)
         tol = 0 if exact else 1e-12
         k3 = np.array(fac)
